@@ -85,7 +85,7 @@ var clauseKeywords = map[string]bool{
 	"modifies": true, "invariant": true, "nopanic": true, "trusted": true, "pure": true,
 	"specfn": true, "let": true, "assume": true, "typeinv": true, "protect": true,
 	"monotone": true, "results": true, "assert": true, "package": true, "sweep": true,
-	"axiom": true, "ghostfield": true, "lemma": true, "impls": true, "bodyensures": true, "snap": true, "ghost": true, "frame": true, "end": true,
+	"axiom": true, "ghostfield": true, "lemma": true, "impls": true, "bodyensures": true, "snap": true, "apply": true, "ghost": true, "frame": true, "end": true,
 }
 
 var labelRe = regexp.MustCompile(`^([A-Za-z_][A-Za-z0-9_\-]*):\s+(.*)$`)
@@ -221,13 +221,24 @@ func parseContractFile(path string, pkgPath string, assumed bool, cs *Contracts)
 				}
 			default:
 				cl.Text = text
-				if (rc.kw == "assert" || rc.kw == "assume" || rc.kw == "snap") && strings.HasPrefix(text, "/") {
+				if (rc.kw == "assert" || rc.kw == "assume" || rc.kw == "snap" || rc.kw == "apply") && strings.HasPrefix(text, "/") {
 					j := strings.Index(text[1:], "/ ")
-					if j < 0 {
-						return fmt.Errorf("%s: anchor needs /regexp/ followed by a space", rc.pos)
+					jn := strings.Index(text[1:], "/#")
+					if jn >= 0 && (j < 0 || jn < j) {
+						// /re/#n occurrence suffix
+						sp := strings.Index(text[1+jn:], " ")
+						if sp < 0 {
+							return fmt.Errorf("%s: anchor occurrence needs a following expression", rc.pos)
+						}
+						cl.Anchor = text[1 : 1+jn+sp]
+						cl.Text = strings.TrimSpace(text[1+jn+sp:])
+					} else {
+						if j < 0 {
+							return fmt.Errorf("%s: anchor needs /regexp/ followed by a space", rc.pos)
+						}
+						cl.Anchor = text[1 : 1+j]
+						cl.Text = strings.TrimSpace(text[1+j+2:])
 					}
-					cl.Anchor = text[1 : 1+j]
-					cl.Text = strings.TrimSpace(text[1+j+2:])
 				}
 				if m := labelRe.FindStringSubmatch(cl.Text); m != nil {
 					cl.Label, cl.Text = m[1], m[2]
@@ -239,7 +250,7 @@ func parseContractFile(path string, pkgPath string, assumed bool, cs *Contracts)
 					cur.Ensures = append(cur.Ensures, cl)
 				case "let":
 					cur.Lets = append(cur.Lets, cl)
-				case "assert", "assume", "snap":
+				case "assert", "assume", "snap", "apply":
 					cur.Asserts = append(cur.Asserts, cl)
 				case "ghost":
 					cur.Ghost = append(cur.Ghost, cl)
